@@ -238,17 +238,20 @@ def requirementsMet (reqs : Requirements) (hdrs : HeaderMap) (signed : List Byte
   && reqs.prefixes.all (fun p =>
         hdrs.all (fun kv => !(isPrefixOf (asciiLower p) kv.1) || signed.contains kv.1))
 
+/-- Rule 5 and the carrier-specific extraction (canonical.rs:440-453): the first half of
+`get_auth_parameters`. -/
+def extractAuthParams (c : CanonReq) : Outcome AuthParams :=
+  match assocGet c.headers AUTHORIZATION, assocGet c.params X_AMZ_ALGORITHM with
+  | some (ah :: _), none => authParamsFromHeader c ah
+  | none, some (alg :: _) => authParamsFromQuery c alg
+  | some [], none => .panic "canonical.rs:446 auth_header[0]"
+  | none, some [] => .panic "canonical.rs:448 sig_algs[0]"
+  | some _, some _ => .err .SignatureDoesNotMatch                  -- rule 5
+  | none, none => .err .MissingAuthenticationToken
+
 /-- `get_auth_parameters` (canonical.rs:436-500). -/
 def getAuthParams (reqs : Requirements) (c : CanonReq) : Outcome AuthParams :=
-  let params : Outcome AuthParams :=
-    match assocGet c.headers AUTHORIZATION, assocGet c.params X_AMZ_ALGORITHM with
-    | some (ah :: _), none => authParamsFromHeader c ah
-    | none, some (alg :: _) => authParamsFromQuery c alg
-    | some [], none => .panic "canonical.rs:446 auth_header[0]"
-    | none, some [] => .panic "canonical.rs:448 sig_algs[0]"
-    | some _, some _ => .err .SignatureDoesNotMatch                  -- rule 5
-    | none, none => .err .MissingAuthenticationToken
-  match params with
+  match extractAuthParams c with
   | .err k => .err k
   | .panic p => .panic p
   | .ok ap =>
